@@ -301,4 +301,33 @@ example : makeTocEntry (· == ' ') (fun _ => false) ['P',' ','<','|','p','|','>'
     .ok (some ⟨some ['P'], none, none, some ['p']⟩) := rfl
 example : makeTocEntry (· == ' ') (fun _ => false) ['<','|','p','|','>'] = .error .typeError := rfl
 
+
+/-! ## validate_toc_entries (parser.py): entries naming a project that is no associated product are removed — all of
+them (the loop used to skip the entry that follows a removed one: fix 211e214) -/
+
+theorem validate_toc_entries_is_filter (products : List Str) (es : List Entry) :
+    validateTocEntries products es = es.filter (fun e => !badEntry products e) := by
+  have := validate_fold (badEntry products) es [] (by simp)
+  simpa [validateTocEntries] using this
+
+/-- no entry with an unknown project survives, and every other entry does, in its place -/
+theorem validate_toc_entries_sound (products : List Str) (es : List Entry) :
+    (∀ e ∈ validateTocEntries products es, badEntry products e = false) ∧
+    (validateTocEntries products es).Sublist es ∧
+    (∀ e ∈ es, badEntry products e = false → e ∈ validateTocEntries products es) := by
+  rw [validate_toc_entries_is_filter]
+  refine ⟨?_, List.filter_sublist, ?_⟩
+  · intro e he; simpa using (List.mem_filter.1 he).2
+  · intro e he hb; exact List.mem_filter.2 ⟨he, by simp [hb]⟩
+
+/-- the loop as it was before the fix let the second of two adjacent bad entries through -/
+theorem validate_toc_entries_old_refuted :
+    ∃ products es, ∃ e ∈ validateTocEntriesOld products es, badEntry products e = true :=
+  ⟨[], [⟨some ['P'], none, none, some ['p']⟩, ⟨some ['Q'], none, none, some ['q']⟩],
+   ⟨some ['Q'], none, none, some ['q']⟩, by decide, by decide⟩
+
+example : validateTocEntries [['k']] [⟨some ['P'], none, none, some ['p']⟩, ⟨some ['Q'], none, none, some ['q']⟩,
+    ⟨some ['K'], none, none, some ['k']⟩, ⟨none, none, some ['a'], none⟩] =
+    [⟨some ['K'], none, none, some ['k']⟩, ⟨none, none, some ['a'], none⟩] := by decide
+
 end SnootyVerif.C10
